@@ -472,6 +472,7 @@ macro_rules! alloc_untrusted {
 }
 
 alloc_untrusted!(allocde_t_l3_f1_s11, length = 3, free = 1, stored = (1, 1));
+alloc_untrusted!(allocde_q_l2_f0_s11, length = 2, free = 0, stored = (1, 1));
 alloc_untrusted!(allocde_q_l2_f2_s00, length = 2, free = 2, stored = (0, 0));
 alloc_untrusted!(allocde_t_l2_f2_s10, length = 2, free = 2, stored = (1, 0));
 alloc_untrusted!(allocde_t_l4_f2_s11, length = 4, free = 2, stored = (1, 1));
@@ -537,3 +538,97 @@ macro_rules! alloc_roundtrip {
 // the executor.  No instance is kept.  What stays checked for the allocator section of a serialized
 // world: `from_serialized_parts` (the function that rebuilds the slot table) on arbitrary inputs,
 // including that it keeps the free-list order and the generations of freed slots (`allocde_`).
+
+// ------------------------------------------------------------------------------------------
+// Whole-World streams that fit: the empty world.  (a) serialize -> deserialize of an empty world with
+// resources reproduces it; (b) the deserialization constructor refuses a registry that lists a
+// component twice (C18), like every other constructor.
+// ------------------------------------------------------------------------------------------
+
+use crate::world::World;
+
+fn empty_world_stream() -> Stream {
+    // (archetypes: empty seq, allocator: (length 0, free: empty seq), resources: empty tuple)
+    let mut t = Stream::new();
+    let toks = [
+        Tok::Tuple,
+        Tok::Seq, Tok::SeqEnd,
+        Tok::Tuple, Tok::U64(0), Tok::Seq, Tok::SeqEnd, Tok::TupleEnd,
+        Tok::Tuple, Tok::TupleEnd,
+        Tok::TupleEnd,
+    ];
+    let mut i = 0;
+    while i < toks.len() {
+        t.set(i, toks[i]);
+        i += 1;
+    }
+    t.len = toks.len();
+    t
+}
+
+macro_rules! world_empty_roundtrip {
+    ($name:ident, human_readable = $HR:expr) => {
+        #[kani::proof]
+        #[kani::unwind(12)]
+        #[kani::stub(alloc::fmt::format, stub_format)]
+        pub fn $name() {
+            type Res = crate::Resources!(u8, u32);
+            let (r8, r32): (u8, u32) = (kani::any(), kani::any());
+            let w = World::<RAB, Res>::with_resources(crate::resources!(r8, r32));
+            let mut ser = Ser::new($HR);
+            vassert!(serde::Serialize::serialize(&w, &mut ser).is_ok(), "an empty world serializes");
+            let mut de = De::new(ser.toks, ser.len, $HR);
+            match <World<RAB, Res> as Deserialize>::deserialize(&mut de) {
+                Ok(back) => {
+                    vassert!(de.pos == ser.len, "the decoder consumes exactly what the encoder wrote");
+                    vassert!(back == w, "the decoded empty world equals the original, resources included");
+                    vassert!(back.len() == 0 && back.is_empty(), "and is empty");
+                    vassert!(*back.verif_resources() == crate::resources!(r8, r32), "resources keep their values and positions");
+                    core::mem::forget(back);
+                }
+                Result::Err(_) => vassert!(false, "deserializing a serialized world succeeds"),
+            }
+            kani::cover!(true, "reached end");
+            core::mem::forget(w);
+        }
+    };
+}
+
+world_empty_roundtrip!(serrt_q_world_empty_resources_compact, human_readable = false);
+world_empty_roundtrip!(serrt_t_world_empty_resources_rows, human_readable = true);
+
+macro_rules! dup_deserialize {
+    ($name:ident, ($($C:ty),*)) => {
+        #[kani::proof]
+        #[kani::unwind(12)]
+        #[kani::should_panic]
+        #[kani::stub(alloc::fmt::format, stub_format)]
+        pub fn $name() {
+            let t = empty_world_stream();
+            let mut de = De::new(t, t.len, false);
+            let r = <World<crate::Registry!($($C),*)> as Deserialize>::deserialize(&mut de);
+            kani::cover!(true, "MUST-BE-UNREACHABLE: deserialization returned (a world or an error) for a registry with a duplicated component instead of panicking");
+            core::mem::forget(r);
+        }
+    };
+}
+
+dup_deserialize!(dupde_q_l3_0_2, (C0, C1, C0));
+dup_deserialize!(dupde_t_l2_0_1, (C0, C0));
+dup_deserialize!(dupde_t_l9_0_8, (C0, C1, C2, C3, C4, C5, C6, C7, C0));
+
+#[kani::proof]
+#[kani::unwind(12)]
+#[kani::stub(alloc::fmt::format, stub_format)]
+pub fn nodupde_q_l3() {
+    let t = empty_world_stream();
+    let mut de = De::new(t, t.len, false);
+    match <World<crate::Registry!(C0, C1, C2)> as Deserialize>::deserialize(&mut de) {
+        Ok(w) => {
+            vassert!(w.is_empty(), "the empty stream decodes to an empty world for a duplicate-free registry");
+            core::mem::forget(w);
+        }
+        Result::Err(_) => vassert!(false, "the empty stream is accepted for a duplicate-free registry"),
+    }
+    kani::cover!(true, "reached end");
+}
